@@ -15,6 +15,10 @@
 //	origin  0 fresh runtimes (otto.New in the goroutine, then the setup script)
 //	        1 copies of one template (Copy in the main goroutine)
 //	        2 copies of one template made concurrently (Copy in the goroutines)
+//	        3 (mode 9) a family: template, copies, copies of copies, every member with its own per-Otto
+//	          settings (Interrupt channel, stack/trace limit, random source, debugger handler) set before or
+//	          after copying; halts are queued on a member's OWN channel only, the root's first one before
+//	          any other member starts, and the root runs last
 //	sharing 0 every runtime runs source text
 //	        1 runtimes run the same compiled *otto.Script objects
 //	        2 runtimes run the same parsed *ast.Program objects
@@ -28,6 +32,7 @@ import (
 	"bufio"
 	"bytes"
 	"encoding/json"
+	"errors"
 	"fmt"
 	"hash/fnv"
 	"math/rand"
@@ -54,6 +59,22 @@ type Job struct {
 	Yield []int      `json:"yield"` // per runtime: Gosched between programs every k-th program (0 = never)
 	Pin   string     `json:"pin,omitempty"`
 	Setup string     `json:"setup"` // job-specific extension of setupJS (closures, objects, arrays, arguments objects of generated shapes)
+	// mode 9 (family): runtime i is the root template (Parent -1) or a copy of runtime Parent (< i), made
+	// right after the parent received its own settings; every member then receives its own settings
+	Family []Member `json:"family,omitempty"`
+}
+
+// per-Otto settings of one member of a family.  Interrupt is a field of the
+// Otto handle and must never be inherited; stack limit, trace limit, random
+// source and debugger handler are copied by clone and stay independent afterwards.
+type Member struct {
+	Parent int     `json:"parent"`
+	OwnInt bool    `json:"own_interrupt"` // vm.Interrupt = make(chan func(), 8) after creation
+	Halt   []int   `json:"halt"`          // program indices before which a halt is queued on the member's OWN channel
+	Stack  int     `json:"stack"`         // SetStackDepthLimit (0 = leave what Copy gave)
+	Trace  int     `json:"trace"`         // SetStackTraceLimit (-1 = leave)
+	Random float64 `json:"random"`        // SetRandomSource(constant) (<0 = leave)
+	Dbg    string  `json:"dbg"`           // SetDebuggerHandler(handler that writes this tag into the vm it is given) ("" = leave)
 }
 
 type Ev struct {
@@ -126,7 +147,30 @@ T.ctor = function P(n) { this.n = n; }; T.ctor.prototype.twice = function () { r
 Array.prototype.tsum = function () { var s = 0; for (var i = 0; i < this.length; i++) s += this[i] || 0; return s; };
 Object.defineProperty(Object.prototype, 'hid', {value: 7, writable: true, configurable: true, enumerable: false});
 String.prototype.shout = function () { return this.toUpperCase() + '!'; };
-T.cl = []; T.ob = []; T.ar = []; T.ma = []; T.gs = [];
+T.cl = []; T.ob = []; T.ar = []; T.ma = []; T.gs = []; T.bf = [];
+(function () {
+  var tgt = function () { return [String(this)].concat(Array.prototype.slice.call(arguments)).join('.'); };
+  T.bf.push(tgt.bind('t0'));
+  T.bf.push(tgt.bind('t1', 'a'));
+  T.bf.push(tgt.bind('t2', 'a', 2));
+  T.bf.push(tgt.bind('t3', 'a', 2, true));
+  T.bf.push(tgt.bind('t4', 'a', 2, true, null));
+  T.bf.push(tgt.bind('t5', 'a', 2, true, null, 'e'));
+  T.bf.push(String.prototype.concat.bind('<', 'a', 'b', 'c', 'd'));
+  T.bf.push(tgt.bind({toString: function () { return 'to'; }}, 1, {toString: function () { return 'ob'; }}, 3));
+  T.bf.push(Array.prototype.concat.bind([0], 1, 2));
+})();
+// every bound function called with extra arguments; the object argument yields while it is converted
+function callBound(tag) {
+  var out = [], ob = {toString: function () { yield(); return 'o' + tag; }};
+  for (var i = 0; i < T.bf.length; i++) out.push(String(T.bf[i](tag, ob, 'x' + tag)) + '/' + String(T.bf[i]('y' + tag)));
+  return out.join('|');
+}
+var dbgSeen = 'unset';
+function depthProbe() { return (function d(n) { try { return d(n + 1); } catch (e) { return n; } })(0); }
+function traceProbe() { function t(n) { if (n === 0) throw new Error('tp'); t(n - 1); } try { t(30); } catch (e) { return e.stack.split('\n').length; } }
+function settingsProbe() { dbgSeen = 'none'; debugger; return [depthProbe(), traceProbe(), Math.random(), dbgSeen].join(':'); }
+function settingsProbeNR() { dbgSeen = 'none'; debugger; return [depthProbe(), traceProbe(), dbgSeen].join(':'); }
 function builtins() {
   return [Object, Function, Array, String, Boolean, Number, Math, Date, RegExp, Error, EvalError, TypeError, RangeError, ReferenceError, SyntaxError, URIError, JSON,
     Object.prototype, Function.prototype, Array.prototype, String.prototype, Boolean.prototype, Number.prototype, Date.prototype, RegExp.prototype, Error.prototype,
@@ -166,7 +210,8 @@ function note(x) { log.push(x); if (log.length > 40) log.shift(); return log.len
 const probeJS = `census() + '|' + peeks() + '|' + dig(T) + '|' + glob + '|' + log.join() + '|' + [1,2].tsum() + '|' + ({}).hid + '|' + 'x'.shout() + '|' + T.counter.get() + '|' + T.margs.get() + '|' + keysIn(T.o3) + '|' + typeof Math.max(1,2) + '|' + [3,1,2].sort().join()`
 
 type gen struct {
-	r *rand.Rand
+	r      *rand.Rand
+	family bool // generating for a family job: every member has a deterministic random source
 }
 
 func (g *gen) word() string {
@@ -440,6 +485,22 @@ func (g *gen) extraSetup() string {
 	for c := 0; c < ngs; c++ {
 		fmt.Fprintf(&b, "T.gs.push((function(){var hidden=%d;var o={};Object.defineProperty(o,'v',{get:function(){return hidden;},set:function(x){hidden=x+1;},enumerable:true,configurable:true});return o;})());\n", r.Intn(100))
 	}
+	nbf := r.Intn(4)
+	for c := 0; c < nbf; c++ {
+		nb := r.Intn(6)
+		args := []string{fmt.Sprintf("'g%d'", c)}
+		for i := 0; i < nb; i++ {
+			switch r.Intn(5) {
+			case 0:
+				args = append(args, fmt.Sprintf("{toString:function(){return 'O%d';}}", i))
+			case 1:
+				args = append(args, fmt.Sprintf("'s%d'", i))
+			default:
+				args = append(args, fmt.Sprint(i*3))
+			}
+		}
+		fmt.Fprintf(&b, "T.bf.push(function(){return [String(this)].concat(Array.prototype.slice.call(arguments)).join('.');}.bind(%s));\n", strings.Join(args, ","))
+	}
 	b.WriteString("'extra';")
 	return b.String()
 }
@@ -452,9 +513,18 @@ var builtinExprs = []string{"Object", "Function", "Array", "String", "Boolean", 
 func (g *gen) shaped(R int) string {
 	r := g.r
 	i, k := r.Intn(8), r.Intn(9)
-	switch r.Intn(24) {
+	switch r.Intn(29) {
 	case 22, 23:
 		return fmt.Sprintf(`sweep('%d_%d')`, R, k)
+	case 24, 25:
+		return fmt.Sprintf(`callBound('%d_%d')`, R, k)
+	case 26, 27:
+		return fmt.Sprintf(`var f = T.bf[%d %% T.bf.length]; f(%d, 'x%d', {toString: function () { yield(); return 'q%d'; }}, %d) + '|' + f() + '|' + f.length`, i+k, R, R, R, k)
+	case 28:
+		if g.family {
+			return `settingsProbe()`
+		}
+		return `settingsProbeNR()`
 	case 0, 1:
 		return fmt.Sprintf(`var c = T.cl[%d %% T.cl.length]; c.bump(%d) + '|' + c.peek()`, i, R)
 	case 2:
@@ -492,8 +562,79 @@ func (g *gen) shaped(R int) string {
 	}
 }
 
+// a family job: root template with Interrupt and all settings configured before it is copied;
+// members that keep what Copy gave them, members that configure their own afterwards, copies of copies
+func (g *gen) familyJob() Job {
+	r := g.r
+	g.family = true
+	defer func() { g.family = false }()
+	j := Job{Mode: 9, Setup: g.extraSetup()}
+	n := 3 + r.Intn(5)
+	for i := 0; i < n; i++ {
+		m := Member{Parent: -1, Trace: -1, Random: -1}
+		if i == 0 {
+			m.OwnInt = r.Intn(6) != 0
+			m.Halt = []int{0}
+			if r.Intn(3) == 0 {
+				m.Halt = append(m.Halt, 2)
+			}
+			m.Stack = 60 + r.Intn(200)
+			m.Trace = Pick(r, []int{0, 1, 5, 10, 25, 40})
+			m.Random = float64(r.Intn(1000)) / 1024
+			m.Dbg = "root"
+		} else {
+			m.Parent = r.Intn(i)
+			if r.Intn(3) == 0 {
+				m.Parent = 0
+			}
+			m.OwnInt = r.Intn(2) == 0
+			if m.OwnInt {
+				for k := 0; k < 8; k++ {
+					if r.Intn(4) == 0 {
+						m.Halt = append(m.Halt, k)
+					}
+				}
+			}
+			if r.Intn(3) == 0 {
+				m.Stack = 60 + r.Intn(200)
+			}
+			if r.Intn(3) == 0 {
+				m.Trace = Pick(r, []int{0, 1, 5, 10, 25, 40})
+			}
+			if r.Intn(3) == 0 {
+				m.Random = float64(r.Intn(1000)) / 1024
+			}
+			if r.Intn(3) == 0 {
+				m.Dbg = fmt.Sprintf("m%d", i)
+			}
+		}
+		j.Family = append(j.Family, m)
+		np := 3 + r.Intn(6)
+		var ps []string
+		for k := 0; k < np; k++ {
+			switch r.Intn(6) {
+			case 0, 1:
+				ps = append(ps, `settingsProbe()`)
+			case 2:
+				ps = append(ps, g.stateful(i+1))
+			case 3, 4:
+				ps = append(ps, g.shaped(i+1))
+			default:
+				ps = append(ps, g.generic(i+1))
+			}
+		}
+		ps = append(ps, `settingsProbe()`, probeJS)
+		j.Progs = append(j.Progs, ps)
+		j.Yield = append(j.Yield, r.Intn(4))
+	}
+	return j
+}
+
 func (g *gen) job(idx int) Job {
 	r := g.r
+	if idx%10 >= 8 {
+		return g.familyJob()
+	}
 	mode := idx % 9
 	if r.Intn(5) == 0 {
 		mode = r.Intn(9)
@@ -556,6 +697,9 @@ func pinnedJobs() []Job {
 					ps = append(ps, fmt.Sprintf(`T.o3['k%d_%d'] = %d; T.o5['k%d_%d'] = 1; T.o9['k%d_%d'] = 1; T.arr.push(%d); T.counter.inc(); T.re.test('xaa'); keysIn(T.o3) + '|' + keysIn(T.o5) + '|' + keysIn(T.o9) + '|' + T.arr.join() + '|' + T.counter.get() + '|' + T.re.lastIndex`, R, i, R, R, i, R, i, R*10+i))
 				}
 				ps = append(ps, fmt.Sprintf(`sweep('p%d')`, R))
+				for i := 0; i < 4; i++ {
+					ps = append(ps, fmt.Sprintf(`callBound('p%d_%d')`, R, i))
+				}
 			} else {
 				shared := `function w(n){ var o={}, a=[]; for(var i=0;i<n;i++){ o['k'+i]=i; a.push(function(){ return i }); } try { null.x } catch(e) { o.e=e.name } var r=/k(\d)/g, s=''; keysIn(o).replace(r,function(m,d){ s+=d }); return s+a.length+o.e+[3,1,2].sort().join()+JSON.stringify({a:[1,{b:2}]})+new Date(0).toISOString()+(1.5).toFixed(1)+'A'.toLowerCase() } glob += 1; T.counter.inc(); w(12) + glob + T.counter.get()`
 				for i := 0; i < 8; i++ {
@@ -568,6 +712,21 @@ func pinnedJobs() []Job {
 		}
 		js = append(js, j)
 	}
+	// a supervised template (Interrupt, limits, random source, debugger handler set before Copy), two
+	// copies that keep what Copy gave them, one that configures its own, and a copy of that copy
+	fam := Job{Mode: 9, Pin: "pinned", Family: []Member{
+		{Parent: -1, OwnInt: true, Halt: []int{0}, Stack: 120, Trace: 5, Random: 0.25, Dbg: "root"},
+		{Parent: 0, Trace: -1, Random: -1},
+		{Parent: 0, Trace: -1, Random: -1},
+		{Parent: 0, OwnInt: true, Halt: []int{1}, Stack: 80, Trace: 25, Random: 0.5, Dbg: "m3"},
+		{Parent: 3, Trace: -1, Random: -1},
+	}}
+	for rt := range fam.Family {
+		ps := []string{`glob += 1; for (var i = 0; i < 10; i++) { glob++; } glob`, `settingsProbe()`, fmt.Sprintf(`callBound('f%d')`, rt), `settingsProbe()`, probeJS}
+		fam.Progs = append(fam.Progs, ps)
+		fam.Yield = append(fam.Yield, rt%3)
+	}
+	js = append(js, fam)
 	return js
 }
 
@@ -585,8 +744,140 @@ func resultText(o Outcome) string {
 
 func yieldFn() { goruntime.Gosched() }
 
+const defaultStackLimit = 400
+
+var errHalt = errors.New("halt")
+
+// what a member ends up with: its own settings over what Copy carried over from its ancestors
+// (Interrupt is never carried over: Copy returns a fresh Otto handle)
+func effective(fam []Member, i int) Member {
+	m := fam[i]
+	for p := m.Parent; p >= 0; p = fam[p].Parent {
+		a := fam[p]
+		if m.Stack == 0 {
+			m.Stack = a.Stack
+		}
+		if m.Trace < 0 {
+			m.Trace = a.Trace
+		}
+		if m.Random < 0 {
+			m.Random = a.Random
+		}
+		if m.Dbg == "" {
+			m.Dbg = a.Dbg
+		}
+	}
+	return m
+}
+
+func applySettings(vm *otto.Otto, m Member) {
+	if m.OwnInt {
+		vm.Interrupt = make(chan func(), 8)
+	}
+	if m.Stack > 0 {
+		vm.SetStackDepthLimit(m.Stack)
+	}
+	if m.Trace >= 0 {
+		vm.SetStackTraceLimit(m.Trace)
+	}
+	if m.Random >= 0 {
+		r := m.Random
+		vm.SetRandomSource(func() float64 { return r })
+	}
+	if m.Dbg != "" {
+		tag := m.Dbg
+		vm.SetDebuggerHandler(func(v *otto.Otto) { _ = v.Set("dbgSeen", tag) })
+	}
+}
+
+func queueHalt(vm *otto.Otto) {
+	if vm.Interrupt == nil {
+		return
+	}
+	select {
+	case vm.Interrupt <- func() { panic(errHalt) }:
+	default:
+	}
+}
+
+// runMember: the programs of one family member; a halt is queued on the member's own channel
+// before the programs listed in m.Halt (the root's first halt may already have been queued: skipFirst)
+func runMember(vm *otto.Otto, m Member, rt int, ps []string, yield int, skipFirst bool, out *[]Ev) {
+	halt := map[int]bool{}
+	for _, k := range m.Halt {
+		halt[k] = true
+	}
+	for i, p := range ps {
+		if m.OwnInt && halt[i] && !(skipFirst && i == 0) {
+			queueHalt(vm)
+		}
+		o := RunJS(vm, p)
+		*out = append(*out, Ev{Rt: rt, Res: resultText(o), Ts: time.Now().UnixNano()})
+		if yield > 0 && i%yield == 0 {
+			goruntime.Gosched()
+		}
+	}
+}
+
+// runFamily (mode 9): a template, copies, copies of copies, each with its own per-Otto settings.
+// Alone: a never-copied runtime that is given the member's effective settings directly.
+// Together: the family is built in the main goroutine (copy, then the copy's own settings), the
+// root's first halt is queued BEFORE any other member starts, all other members run concurrently
+// and the root runs last: whatever is pending for the root must still be there for it.
+func runFamily(idx int, j Job) JobResult {
+	res := JobResult{Idx: idx}
+	n := len(j.Family)
+	for rt := 0; rt < n; rt++ {
+		var evs []Ev
+		vm := newTemplate(j.Setup)
+		e := effective(j.Family, rt)
+		applySettings(vm, e)
+		runMember(vm, e, rt, j.Progs[rt], 0, false, &evs)
+		tr := make([]string, len(evs))
+		for i, ev := range evs {
+			tr[i] = ev.Res
+		}
+		res.Seq = append(res.Seq, tr)
+	}
+	vms := make([]*otto.Otto, n)
+	for rt := 0; rt < n; rt++ {
+		m := j.Family[rt]
+		if m.Parent < 0 {
+			vms[rt] = newTemplate(j.Setup)
+		} else {
+			vms[rt] = vms[m.Parent].Copy()
+		}
+		applySettings(vms[rt], m)
+	}
+	rootHalted := false
+	if root := j.Family[0]; root.OwnInt && len(root.Halt) > 0 && root.Halt[0] == 0 {
+		queueHalt(vms[0])
+		rootHalted = true
+	}
+	per := make([][]Ev, n)
+	var wg sync.WaitGroup
+	start := make(chan struct{})
+	for rt := 1; rt < n; rt++ {
+		wg.Add(1)
+		go func(rt int) {
+			defer wg.Done()
+			<-start
+			runMember(vms[rt], j.Family[rt], rt, j.Progs[rt], j.Yield[rt], false, &per[rt])
+		}(rt)
+	}
+	close(start)
+	wg.Wait()
+	runMember(vms[0], j.Family[0], 0, j.Progs[0], 0, rootHalted, &per[0])
+	for _, evs := range per {
+		res.Conc = append(res.Conc, evs...)
+	}
+	sort.SliceStable(res.Conc, func(a, b int) bool { return res.Conc[a].Ts < res.Conc[b].Ts })
+	return res
+}
+
 func newTemplate(extra string) *otto.Otto {
 	vm := otto.New()
+	vm.SetStackDepthLimit(defaultStackLimit) // depthProbe() recurses until the limit
 	Must(vm.Set("yield", yieldFn))
 	if o := RunJS(vm, setupJS); o.Err != nil || o.Panic != nil {
 		panic(fmt.Sprintf("setup script failed: %v %v", o.Err, o.Panic))
@@ -657,6 +948,9 @@ func runList(vm *otto.Otto, sh *shared, rt int, ps []string, yield int, out *[]E
 }
 
 func runJob(idx int, j Job) JobResult {
+	if len(j.Family) > 0 {
+		return runFamily(idx, j)
+	}
 	res := JobResult{Idx: idx}
 	origin := j.Mode / 3
 	n := len(j.Progs)
@@ -864,7 +1158,7 @@ func clip(s string, n int) string {
 	return s
 }
 
-var modeNames = []string{"fresh/source", "fresh/shared-Script", "fresh/shared-Program", "copies/source", "copies/shared-Script", "copies/shared-Program", "concurrent-Copy/source", "concurrent-Copy/shared-Script", "concurrent-Copy/shared-Program"}
+var modeNames = []string{"fresh/source", "fresh/shared-Script", "fresh/shared-Program", "copies/source", "copies/shared-Script", "copies/shared-Program", "concurrent-Copy/source", "concurrent-Copy/shared-Script", "concurrent-Copy/shared-Program", "family/per-Otto-settings"}
 
 func main() {
 	if len(os.Args) > 1 && os.Args[1] == "-child" {
@@ -873,7 +1167,7 @@ func main() {
 	}
 	env := FromFlags("c20_race")
 	env.Import = "Otto.C20.Corr"
-	env.Rule = "a case = one job: 2-8 runtimes (fresh / copies of one template / copies made concurrently; running source text / the same compiled Scripts / the same parsed Programs), each with its own program list (3-10 programs mutating and digesting a rich shared-looking state, plus regexp, JSON, Date, Math.random, case mapping, sort, stack traces, eval/Function, number formatting, URI coding), run once alone and once concurrently under the race detector; non-trivial = the completion order of the concurrent run genuinely interleaves the runtimes (it is not a concatenation of solo runs) and no runtime's trace is empty"
+	env.Rule = "a case = one job: 2-8 runtimes (fresh / copies of one template / copies made concurrently / a family of template, copies and copies of copies with per-Otto settings and own interrupts; running source text / the same compiled Scripts / the same parsed Programs), each with its own program list (3-10 programs mutating and digesting a rich shared-looking state, bound functions with 0-5 bound arguments called with extra arguments, plus regexp, JSON, Date, Math.random, case mapping, sort, stack traces, eval/Function, number formatting, URI coding), run once alone and once concurrently under the race detector; non-trivial = the completion order of the concurrent run genuinely interleaves the runtimes (it is not a concatenation of solo runs) and no runtime's trace is empty"
 	g := &gen{r: env.Rng}
 	jobs := pinnedJobs()
 	for len(jobs) < env.N {
@@ -915,7 +1209,7 @@ func main() {
 	for i, j := range jobs {
 		o := obs[i]
 		n := len(j.Progs)
-		if j.Mode/3 != 0 {
+		if j.Mode/3 != 0 && len(j.Family) == 0 {
 			n++ // the template probe
 		}
 		progText, _ := json.Marshal(j.Progs)
@@ -923,6 +1217,10 @@ func main() {
 		// the deterministic description of the job: identical on every run with the same seed, so that a
 		// replay finds the case again; what was observed for a failing job goes into a second case
 		desc := fmt.Sprintf("job=%d mode=%d(%s) runtimes=%d yield=%v programs=%s setup=%s", i, j.Mode, bucket, len(j.Progs), j.Yield, string(progText), jsq(j.Setup))
+		if len(j.Family) > 0 {
+			fb, _ := json.Marshal(j.Family)
+			desc += " family=" + string(fb)
+		}
 		if j.Pin != "" {
 			desc = "pinned " + desc
 		}
